@@ -374,7 +374,11 @@ func runHistory(c *Ctx, caseIdx int, rng *rand.Rand, o *HistOpts) *HistRun {
 		c.Count("proposals-frozen", so.Frozen)
 		c.Count("proposals-applied", so.Applied)
 		c.Count("validator-updates", len(res.End.ValidatorUpdates))
-		if o.RestartPermille > 0 && h < int64(o.Blocks) && rng.Intn(1000) < o.RestartPermille {
+		restartP := o.RestartPermille
+		if restartP > 0 && (len(res.End.ValidatorUpdates) > 0 || hr.blockChangedStakes(len(hr.Results)-1) || so.Applied > 0) {
+			restartP *= 4 // restarts directly after blocks that changed stakes, membership or parameters
+		}
+		if restartP > 0 && h < int64(o.Blocks) && rng.Intn(1000) < restartP {
 			if err := r.Stop(); err != nil {
 				c.Err(caseIdx, "stop", err)
 				return hr
@@ -513,3 +517,16 @@ func (hr *HistRun) checkStakeInvariants(s *MState, h int64) {
 
 var _ = sort.Strings
 var _ abci.ResponseDeliverTx
+
+// blockChangedStakes: did block index bi contain an accepted staking / unstaking transaction?
+func (hr *HistRun) blockChangedStakes(bi int) bool {
+	if bi < 0 || bi >= len(hr.Results) {
+		return false
+	}
+	for ti, t := range hr.Txs[bi] {
+		if t.Tx != nil && (t.Tx.Type == rctypes.TRX_STAKING || t.Tx.Type == rctypes.TRX_UNSTAKING) && hr.Results[bi].Txs[ti].Code == 0 {
+			return true
+		}
+	}
+	return false
+}
